@@ -10,8 +10,8 @@
 //! Instantiation mirrors `loader.js`: the only imports that exist are
 //! `builtins.__Process$println` and `builtins.__Process$panic` (anything else is a LinkError,
 //! as it would be under `new WebAssembly.Instance`), strings are decoded the way
-//! `String.fromCharCode(...codes)` decodes the `array.get_s` results of `__strGet`
-//! (a byte >= 0x80 becomes the UTF-16 unit 0xFF00|byte), the start function runs at
+//! `new TextDecoder('utf-8', { ignoreBOM: true })` decodes the low 8 bits of the `__strGet`
+//! results (UTF-8, invalid sequences become U+FFFD), the start function runs at
 //! instantiation, then the requested export is called with no arguments.
 //!
 //! Trap kinds implemented (each has a code path in `exec`), and their classification:
@@ -1601,8 +1601,7 @@ impl State {
     Ok(())
   }
 
-  /// decode a GC string the way loader.js does: `String.fromCharCode(...codes)` over the
-  /// `array.get_s` results, i.e. ToUint16 of the sign-extended byte
+  /// decode a GC string the way loader.js does: TextDecoder (UTF-8) over the bytes
   fn host_string(&self, v: Val) -> Result<String, Stop> {
     match v {
       Val::Obj(o) => match &self.heap[o as usize] {
@@ -1613,16 +1612,21 @@ impl State {
               data.len()
             )));
           }
-          let mut s = String::with_capacity(data.len());
-          for b in data {
-            if *b < 0x80 {
-              s.push(*b as char);
-            } else {
-              // (b as i8 as i32) as u16 == 0xFF00 | b : never a surrogate
-              s.push(char::from_u32(0xFF00 | *b as u32).unwrap());
+          // loader.js: `new TextDecoder('utf-8', { ignoreBOM: true }).decode(bytes)` over the low
+          // 8 bits of each `__strGet` result: UTF-8 with U+FFFD replacement, BOM kept
+          match loader_string_decoding() {
+            LoaderDecoding::Utf8 => Ok(String::from_utf8_lossy(data).into_owned()),
+            LoaderDecoding::CharCodePerByte => {
+              // older loader.js: `String.fromCharCode(...codes)` over the sign-extended bytes:
+              // a byte >= 0x80 becomes the UTF-16 unit 0xFF00|byte
+              let mut s = String::with_capacity(data.len());
+              for b in data {
+                if *b < 0x80 { s.push(*b as char) } else { s.push(char::from_u32(0xFF00 | *b as u32).unwrap()) }
+              }
+              Ok(s)
             }
+            LoaderDecoding::Unknown => Err(Stop::Harness("unsupported: string decoding of loader.js not recognised".into())),
           }
-          Ok(s)
         }
         _ => Err(Stop::Harness("unsupported: host string argument is not an i8 array".into())),
       },
@@ -2428,4 +2432,25 @@ pub fn function_names(bytes: &[u8]) -> Vec<(u32, String)> {
       .collect(),
     Err(_) => vec![],
   }
+}
+
+#[derive(Clone, Copy, PartialEq, Eq)]
+enum LoaderDecoding {
+  Utf8,
+  CharCodePerByte,
+  Unknown,
+}
+
+/// How the loader.js of the tree under test turns a GC byte array into a JS string. The host
+/// imports are implemented natively here, so the decoding is mirrored from the real file.
+fn loader_string_decoding() -> LoaderDecoding {
+  static MODE: std::sync::OnceLock<LoaderDecoding> = std::sync::OnceLock::new();
+  *MODE.get_or_init(|| {
+    let path = format!("{}/crates/samlang-compiler/src/loader.js", crate::front::repo_root());
+    match std::fs::read_to_string(path) {
+      Ok(t) if t.contains("TextDecoder") && t.contains("utf-8") => LoaderDecoding::Utf8,
+      Ok(t) if t.contains("String.fromCharCode(...codes)") => LoaderDecoding::CharCodePerByte,
+      _ => LoaderDecoding::Unknown,
+    }
+  })
 }
